@@ -4,6 +4,7 @@ import TantivyModel.Proofs.AggTrunc
 import TantivyModel.Proofs.AggCut
 import TantivyModel.Proofs.AggExtStats
 import TantivyModel.Proofs.AggSpecPV
+import TantivyModel.Proofs.AggRange
 /-!
 # C14 — Aggregations equal a direct computation and do not depend on partitioning
 
@@ -385,6 +386,21 @@ theorem C14_range_bucket (cuts : List Int) (hs : cuts.Pairwise (· < ·)) (v : I
     rw [e1, e2, List.length_take]
     simp; omega
 
+/-- **The cut points of a range request are derived, not assumed.**  `normRanges` mirrors
+`extend_validate_ranges` (sort by start, extend to the whole line, reject overlaps, turn holes into
+buckets).  When it accepts a request whose ranges are non-empty, the resulting buckets are
+contiguous and non-empty, every user range is exactly one of them, and the interior boundaries
+are strictly increasing — which is the hypothesis of `C14_range_bucket`: every value then lands
+in exactly one bucket of the normalised request. -/
+theorem C14_range_request_normalised (rs : List (Option Int × Option Int)) (bs : List ERange)
+    (h : normRanges rs = some bs)
+    (hne : ∀ r ∈ rs, EInt.lt (toERange r).1 (toERange r).2 = true) :
+    (cutsOf bs).Pairwise (· < ·) ∧ (∀ r ∈ rs, toERange r ∈ bs) ∧ Contig bs
+      ∧ (∀ v i, rangeIdx (cutsOf bs) v = i ↔
+          i ≤ (cutsOf bs).length ∧ (∀ c ∈ (cutsOf bs).take i, c ≤ v) ∧ (∀ c ∈ (cutsOf bs).drop i, v < c)) := by
+  obtain ⟨h1, h2, h3, _⟩ := normRanges_ok rs bs h hne
+  exact ⟨h1, h2, h3, fun v i => C14_range_bucket (cutsOf bs) h1 v i⟩
+
 /-! ### limits -/
 
 /-- the bucket limit yields an error or the complete result, never a shortened one (model of
@@ -444,6 +460,10 @@ example : (extTreePlaceholders 3 (.node (.leaf []) (.leaf [1, 2, 3, 4]))).sigma 
 /-- the document with the values 1 and 2 in one histogram bucket: the per-value specification says 2 -/
 example : evalAggPV Int (.hist ⟨0, 10, 0, 0, Option.none, Option.none⟩ .none) [[(0, [1, 2])]] = [(0, 2, ())] := by
   decide +kernel
+/-- a request with a gap and two open ends: five buckets, cuts 0, 10, 20, 30; an overlap is rejected -/
+example : (normRanges [(some 20, some 30), (some 0, some 10)]).map cutsOf = some [0, 10, 20, 30] := by decide
+example : normRanges [(some 0, some 10), (some 5, some 20)] = Option.none := by decide
+example : ∀ r ∈ [((some 20 : Option Int), (some 30 : Option Int)), (some 0, some 10)], EInt.lt (toERange r).1 (toERange r).2 = true := by decide
 example : [0, 10, 20].Pairwise (fun a b : Int => a < b) := by decide
 example : ([1, 2, 3] : List Int).Nodup ∧ ∀ d ∈ exTDocs, ∀ k ∈ termKeys ⟨0, Option.none, 2, 2, 1, .countDesc⟩ d, k ∈ [1, 2, 3] := by
   decide
